@@ -123,9 +123,6 @@ def harness(prog, dag, txt, K):
             symx.LITERAL_MODE["mode"] = "uf"
         if bad is None or bad == "INVALID":
             return None
-        if ex.path_tainted:
-            ex.stats.undecided += 1
-            return None
         m = state["model"] or ex.path_model()
         vals = None
         if m is not None:
@@ -358,41 +355,60 @@ def _without_counter_quotients(prog):
     return prog
 
 
-def _zero_flattened_assigns(prog):
-    """Assignments whose written right-hand side mentions a variable but is stored as the
-    constant 0 (pymbolic.flatten in Assign.__init__: 0*x -> 0)."""
+def _zero_rewrite(e, hits):
+    """Replace every product/quotient sub-term that mentions a variable but that pymbolic.flatten (applied by the
+    statement constructors) stores as the constant 0 by  v - v  (same value, keeps the operand's shape, untouched by
+    flatten).  v: the last variable of the sub-term (user-type / array operands are written last by the generators)."""
     from vf import exprdsl, stmtdsl
     from pymbolic.mapper.flattener import flatten
-    out = []
-    for ph in prog["phases"]:
-        for op in pg.walk_ops(ph["ops"]):
-            if op[0] == "assign" and isinstance(op[1], str) and not op[3]:
-                vs = sorted(stmtdsl.dsl_vars(op[2]))
-                try:
-                    f = flatten(exprdsl.build(op[2]))
-                except Exception:  # noqa
-                    continue
-                if vs and isinstance(f, (int, float)) and f == 0:
-                    out.append((op, vs))
-    return out
+    k = e[0]
+    if k in ("v", "c"):
+        return e
+    if k in ("*", "/"):
+        vs = [s_[1] for _, s_ in exprdsl.subterms(e) if s_[0] == "v"]
+        if vs:
+            try:
+                f = flatten(exprdsl.build(e))
+            except Exception:  # noqa
+                f = None
+            if isinstance(f, (int, float)) and f == 0:
+                pref = [v for v in vs if v.startswith("<state>")] or vs
+                hits.append(pref[-1])
+                return ["+", ["v", pref[-1]], ["*", ["c", -1], ["v", pref[-1]]]]
+    if k == "cmp":
+        return ["cmp", e[1], _zero_rewrite(e[2], hits), _zero_rewrite(e[3], hits)]
+    if k == "call":
+        kw = e[3] if len(e) > 3 else {}
+        return ["call", e[1], [_zero_rewrite(x, hits) for x in e[2]], {n: _zero_rewrite(v, hits) for n, v in kw.items()}]
+    return [k] + [_zero_rewrite(x, hits) if isinstance(x, list) else x for x in e[1:]]
 
 
 def _without_zero_flattening(prog):
-    """x - x instead of 0*x: the same value with the operand's shape, not touched by flatten."""
+    """(rewritten program, number of rewritten sub-terms)"""
     import copy
     prog = copy.deepcopy(prog)
-    for op, vs in _zero_flattened_assigns(prog):
-        arr = [v for v in vs if v == op[1]] or vs
-        op[2] = ["+", ["v", arr[0]], ["*", ["c", -1], ["v", arr[0]]]]
-    return prog
+    hits = []
+    for ph in prog["phases"]:
+        for op in pg.walk_ops(ph["ops"]):
+            if op[0] == "assign":
+                op[2] = _zero_rewrite(op[2], hits)
+            elif op[0] == "assign_call":
+                op[3] = [_zero_rewrite(x, hits) for x in op[3]]
+                op[4] = {n: _zero_rewrite(v, hits) for n, v in op[4].items()}
+            elif op[0] == "yield":
+                op[1] = _zero_rewrite(op[1], hits)
+    return prog, len(hits)
 
 
 def classify(c, r, open_known):
     for k in open_known:
-        if k.get("matcher") == "zero_product_loses_shape" and c.get("kind") == "semantic" and _zero_flattened_assigns(c["prog"]):
-            s, cand, paths = check_program(_without_zero_flattening(c["prog"]), c.get("K", 2), 60)
-            if cand is None:
-                return k["id"]
+        if k.get("matcher") == "zero_product_loses_shape" and c.get("kind") in ("semantic", "generate"):
+            # (also when the scalar 0 reaches a user-function argument and kind inference rejects the program)
+            prog2, nhits = _without_zero_flattening(c["prog"])
+            if nhits:
+                s, cand, paths = check_program(prog2, c.get("K", 2), 60)
+                if cand is None:
+                    return k["id"]
         if k.get("matcher") == "integer_counter_quotient" and c.get("kind") == "semantic" and _has_counter_quotient(c["prog"]):
             # re-run with the known-defective quotients replaced: must agree
             s, cand, paths = check_program(_without_counter_quotients(c["prog"]), c.get("K", 2), 60)
